@@ -170,6 +170,9 @@ def run(ctx, env):
         ctx.floor("R3.6", body.path, "parsing calls", len(pcs), 1)
         c02.feed_back_rule(ctx, prog, an, body, pcs, rid="R3.6", support=False)
 
+    # R3.7 the V5 / V7 wrappers apply the packet parser to exactly the bytes they are handed
+    ctx.rule("R3.7", "V5Parser::parse / V7Parser::parse apply the derived packet parser to their own argument - all of it, from its first byte - and report that parser's remainder and packet unchanged (shared with C02 R2.5): nothing is stripped, skipped or re-framed in front of the fixed layout")
+    c02.wrappers_rule(ctx, prog, an, rid="R3.7", rid_err=None, versions=(5, 7))
     # R3.4
     iana = json.load(open(os.path.join(VERIF, "tables", "iana_protocols.json")))
     adt = prog.adts.get("protocol::ProtocolTypes")
